@@ -51,11 +51,15 @@ type simState struct {
 	failAt int // -1 = off: the exchange with this index gets HTTP 500
 	swAt   int // -1 = off: exchanges with index >= swAt are answered from swVer
 	swVer  int
+	lagAt  int // -1 = off: exchanges with index >= lagAt see the node lagKth blocks behind
+	lagK   uint64
+	heads  func(version int) uint64
 }
 
 // enableSim starts the HTTP node for n.
 func (n *Node) enableSim() {
-	st := &simState{failAt: -1, swAt: -1}
+	st := &simState{failAt: -1, swAt: -1, lagAt: -1}
+	st.heads = func(v int) uint64 { return n.Hist.Versions[v].Head().Num }
 	st.sim = simnode.New(toSim(n.Hist.Versions[0]))
 	st.added = 1
 	st.sim.Pre(func(x *simnode.Exchange) {
@@ -68,6 +72,12 @@ func (n *Node) enableSim() {
 		}
 		if st.swAt >= 0 && i >= st.swAt {
 			x.Version = st.swVer - 1
+		}
+		if st.lagAt >= 0 && i >= st.lagAt {
+			if h := st.heads(x.Version); h > st.lagK {
+				hd := h - st.lagK
+				x.Head = &hd
+			}
 		}
 		st.mu.Unlock()
 	})
@@ -110,6 +120,14 @@ func (n *Node) XSwitch(k, ver int) {
 	n.sim.mu.Unlock()
 }
 
+// XLag: in the next step, HTTP exchanges with index >= k are answered by a
+// node that is behind by lag blocks (while earlier ones saw the full chain).
+func (n *Node) XLag(k int, lag uint64) {
+	n.sim.mu.Lock()
+	n.sim.lagAt, n.sim.lagK = k, lag
+	n.sim.mu.Unlock()
+}
+
 func (n *Node) beginStepSim() {
 	if n.sim == nil {
 		return
@@ -124,7 +142,7 @@ func (n *Node) endStepSim() {
 		return
 	}
 	n.sim.mu.Lock()
-	n.sim.failAt, n.sim.swAt = -1, -1
+	n.sim.failAt, n.sim.swAt, n.sim.lagAt = -1, -1, -1
 	n.sim.mu.Unlock()
 }
 
